@@ -205,6 +205,26 @@ CHECKS['C18'] = dict(
          'modelled as strings (None = empty string); address objects are an uninterpreted function of the record identity; cached '
          'A/AAAA records are DNSAddress objects (decoder, C02); A5 await model with the stability rely clauses listed in '
          'contracts/c18.py; termination of the wait loop is not proved')
+CHECKS['C09'] = dict(
+    text='Probing and announcing, per function, for all services, caches and clocks: the record builders _dns_pointer/_dns_service/'
+         '_dns_text and the name setter preserve memo_ok (a memoised record always shows the CURRENT name, TTL and rdata - so a probe, '
+         'announcement or goodbye built after a rename is about the new name), with PTR in class IN without and SRV/TXT with the '
+         'cache-flush bit and the override TTL when given. generate_service_query: exactly one QU PTR question for the type with the '
+         'proposed pointer as the only authority record. async_check_service with the await model (two nested loops): a probe is '
+         'sent only at its scheduled instant (next_time, advanced by 175 ms per probe and reset together with the counter on a '
+         'rename), only while fewer than three were sent for the current name, and only if at that very instant the cache holds no '
+         'unexpired pointer of the type with exactly this instance name; it returns normally only after three such probes; '
+         'NonUniqueNameException escapes only when renaming is not allowed. _add_broadcast_answer / generate_service_broadcast: PTR, '
+         'SRV, TXT in that order, then the address and NSEC records iff asked, every record with the override TTL when given, '
+         'cache-flush bit on everything but the PTR, flags QR|AA, multicast, no questions. _async_broadcast_service: three '
+         'transmissions `interval` ms apart built with exactly the given service/TTL/flag, ending at the instant of the third. '
+         'async_register_service: registry insertion and the announcement task only after the probes (call-site obligations), '
+         'announcing with 225 ms spacing and no TTL override.',
+    design_ref='DESIGN.md section 4 C09 and 9',
+    note='A5 await model; get_address_and_nsec_records/_dns_addresses assumed by contract; service_type_name and the f-string of the '
+         'renamed instance are opaque (the "-N" numbering is not proved); registry.async_add (name uniqueness: C03) and the conflict '
+         'lookup current_entry_with_name_and_alias (C05) are callee contracts verified in those checks; ensure_future applies the '
+         'coroutine\'s contract at the call; seed C09-probe-wait-continue-dropped is reported UNDECIDED (exit 2), not as a violation')
 NOT_APPLICABLE = {
     'C07': 'end-to-end liveness over several hosts and lossy delivery: no per-function contract can express it '
            '(DESIGN.md section 6)',
